@@ -63,9 +63,15 @@ def run(ctx):
                     continue      # the refgroup configuration is itself invalid: the run stops early by design
                 res.violations.append(vlib.Violation("run failed: %s" % err[:200].decode("latin1"), inp))
                 continue
-            for d in PC.compare(log, m):
-                res.violations.append(vlib.Violation("git invocation differs from the protocol model: " + d, inp,
-                                                     cls=None))
+            breaches = PC.property_breaches(log)
+            for b in breaches:
+                res.violations.append(vlib.Violation("git is invoked outside the protected environment: " + b, inp))
+            if not breaches:
+                for d in PC.compare(log, m)[:1]:
+                    # the invocation sequence is no longer the modelled one, yet every invocation is protected:
+                    # a broken correspondence, not by itself a failing input
+                    res.violations.append(vlib.Violation("git invocation differs from the protocol model: " + d, inp,
+                                                         cls=None, nofail=True))
         # ---- (b)-(d) real git
         scratch = eng.scratch
         sizer_dir = os.path.dirname(ctx["bins"]["sizer"])
@@ -159,13 +165,26 @@ def run(ctx):
                     sv2, _ = SC.parse_model(eng.model([line2])[0])
                     SC.compare_fields(res, "replace refs / grafts present", inp, v2, sv2, fields,
                                       label="specification on the stored object graph (replacements and grafts ignored)")
-            # shallow marker
-            with open(os.path.join(gitdir, "shallow"), "w") as f:
-                f.write(sc.oids[commits[0]].hex() + "\n")
-            sh = subprocess.run([ctx["bins"]["sizer"]] + args, cwd=d, env=env, stdout=subprocess.PIPE, stderr=subprocess.PIPE)
-            res.case(("shallow", tuple(sc.oids)), True)
+            # shallow marker: refused however the repository is addressed
+            for gd in (gitdir, bare):
+                with open(os.path.join(gd, "shallow"), "w") as f:
+                    f.write(sc.oids[commits[0]].hex() + "\n")
+            sruns = {"top": dict(cwd=d, env=env), "subdir": dict(cwd=sub, env=env), "GIT_DIR": dict(cwd=scratch, env=e2),
+                     "bare": dict(cwd=bare, env=env)}
+            if os.path.isdir(wt):
+                sruns["worktree"] = dict(cwd=wt, env=env)
+            for mode, kw in sruns.items():
+                sh = subprocess.run([ctx["bins"]["sizer"]] + args, stdout=subprocess.PIPE, stderr=subprocess.PIPE, **kw)
+                res.case(("shallow", mode, tuple(sc.oids)), True)
+                if sh.returncode == 0 or sh.stdout or b"panic" in sh.stderr or b"goroutine " in sh.stderr:
+                    res.violations.append(vlib.Violation(
+                        "a shallow repository addressed via %s was measured (or crashed) instead of being refused" % mode, inp,
+                        expected="non-zero exit, empty stdout, an error message",
+                        observed="rc=%d stdout=%r stderr=%r" % (sh.returncode, sh.stdout[:120], sh.stderr[:160])))
+            sh = subprocess.run(["git", "-C", d, "sizer"] + args, cwd=scratch, env=env, stdout=subprocess.PIPE, stderr=subprocess.PIPE)
+            res.case(("shallow", "git -C", tuple(sc.oids)), True)
             if sh.returncode == 0 or sh.stdout:
-                res.violations.append(vlib.Violation("a shallow repository was measured instead of refused", inp,
+                res.violations.append(vlib.Violation("a shallow repository addressed via git -C was measured instead of refused", inp,
                                                      expected="non-zero exit, empty stdout", observed=sh.stdout[:200].decode()))
             shutil.rmtree(d, ignore_errors=True)
             shutil.rmtree(bare, ignore_errors=True)
